@@ -123,6 +123,31 @@ def z3_check(solver, stats: Stats, timeout_ms=None):
     return str(r)
 
 
+def split_check(s, variables, lo, hi, st, timeout_ms=60000, max_cases=256):
+    """Finite-domain case split, used when the solver answers `unknown` on a query whose integer
+    variables have small domains: the query is re-asked once per assignment of `variables` in
+    [lo, hi] (each sub-query is still the solver's verdict over all remaining variables).
+    unsat everywhere -> "unsat"; a model anywhere -> ("sat", the fixed assignment as constraints);
+    otherwise "unknown".  Returns (verdict, constraints or None)."""
+    import itertools
+    variables = list(variables)
+    while (hi - lo + 1) ** len(variables) > max_cases and variables:
+        variables = variables[:-1]
+    st.extra["case_splits"] = st.extra.get("case_splits", 0) + 1
+    verdict = "unsat"
+    for vals in itertools.product(range(lo, hi + 1), repeat=len(variables)):
+        fix = [v == x for v, x in zip(variables, vals)]
+        s.push()
+        s.add(fix)
+        r = z3_check(s, st, timeout_ms)
+        s.pop()
+        if r == "sat":
+            return "sat", fix
+        if r != "unsat":
+            verdict = "unknown"
+    return verdict, None
+
+
 def count_obligation(stats: Stats, result: str, formula_repr: str, symbolic: bool = True):
     stats.obligations += 1
     if result == "unsat":
@@ -131,6 +156,9 @@ def count_obligation(stats: Stats, result: str, formula_repr: str, symbolic: boo
         stats.sat += 1
     else:
         stats.unknown += 1
+        stats.extra.setdefault("unknown_obligations", [])
+        if len(stats.extra["unknown_obligations"]) < 20:
+            stats.extra["unknown_obligations"].append(formula_repr[:300])
     if symbolic:
         stats.nontrivial.add(hash(formula_repr) & 0xFFFFFFFFFFFF)
 
